@@ -92,6 +92,9 @@ func cmdSigs(args []string) {
 			out[b.File] = map[string][]string{}
 		}
 		out[b.File][b.Name] = names
+		if fn.Parent() != nil {
+			out[b.File][b.Name+"#calls"] = callFingerprint(fn)
+		}
 	}
 	json.NewEncoder(os.Stdout).Encode(out)
 }
